@@ -217,27 +217,28 @@ Variable r : run.
 Variable i : nat.
 Variable c : list nat.
 Variable L : nat -> nat -> nat.
-Variables wi si : nat.
+Variables wi si su : nat.
 Variable A : list (list nat).                (* the admitted combinations *)
 Local Notation T := (fl_trials fb).
 Local Notation eb := (en_base en).
 Local Notation Kt := (K c L).
 Local Notation cw := (cwn fb c).
+Local Notation wm := (wi * su).     (* copies of a combination of weight 1 in a repetition *)
 
 Hypothesis Hrows : forall f, In f c -> exists row, rlookup r f = Some row /\ length row = T /\
                                        forall t, t < T -> nth_error row t = Some (Some (L f t)).
 Hypothesis Hpre : nth_error (eb_preamble_sizes eb) i = Some 0%Z.
 Hypothesis Hcw : nth_error (eb_crossing_weights eb) i = Some (Z.of_nat wi).
 Hypothesis Hsz : nth_error (eb_crossing_sizes eb) i = Some (Z.of_nat si).
-Hypothesis Hsu : match c with [] => 1 | f :: _ => sustain fb f end = 1.
+Hypothesis Hsu : match c with [] => 1 | f :: _ => sustain fb f end = su.
 Hypothesis Hrun : (eb_preamble eb + rounds_per_run fb en * eb_csize eb + en_leftover en)%Z = Z.of_nat T.
 Hypothesis Hpos : 0 < si * wi.
 Hypothesis HA : NoDup A.
 Hypothesis Hin : forall t, t < T -> In (Kt t) A.
-Hypothesis Hsi : si = list_sum (map cw A).
+Hypothesis Hsi : si = list_sum (map cw A) * su.
 
 Definition the_cr : dcrossing :=
-  {| c_factors := c; c_first := 0; c_chunk := si * wi; c_mult := map (fun ls => (ls, cw ls * wi)) A |}.
+  {| c_factors := c; c_first := 0; c_chunk := si * wi; c_mult := map (fun ls => (ls, cw ls * wm)) A |}.
 
 Variable S0 : sem.
 Variable s : tseq.
@@ -249,10 +250,10 @@ Local Notation cs := (map Kt (seq 0 T)).
 
 (** what the model checks on a repetition, against [block_ok] *)
 Definition Bok (or_less : bool) (blk : list (list nat)) : Prop :=
-  forall ls, In ls blk -> if or_less then count_in ls blk <= cw ls * wi else count_in ls blk = cw ls * wi.
+  forall ls, In ls blk -> if or_less then count_in ls blk <= cw ls * wm else count_in ls blk = cw ls * wm.
 
-Lemma mult_sum : list_sum (map (fun ls => cw ls * wi) A) = csz.
-Proof. rewrite Hsi. apply (list_sum_scale cw wi A). Qed.
+Lemma mult_sum : list_sum (map (fun ls => cw ls * wm) A) = csz.
+Proof. rewrite Hsi. rewrite (list_sum_scale cw wm A). lia. Qed.
 
 Lemma Bok_block_ok b len : b + len <= T -> len <= csz ->
   let blk := map Kt (seq b len) in
@@ -267,17 +268,17 @@ Proof.
       destruct (len =? csz) eqn:El; cbn [negb] in HB.
       * apply Nat.eqb_eq in El.
         (* counts of appearing combinations are exact; the totals agree; so all are *)
-        apply (list_sum_le_eq (fun ls => count_in ls blk) (fun ls => cw ls * wi) A); [| |exact Hls].
+        apply (list_sum_le_eq (fun ls => count_in ls blk) (fun ls => cw ls * wm) A); [| |exact Hls].
         -- intros x Hx. destruct (in_dec (list_eq_dec Nat.eq_dec) x blk) as [Hi | Hn].
            ++ rewrite (HB x Hi). apply le_n.
            ++ rewrite (count_in_zero x blk Hn). lia.
         -- rewrite (count_total A blk HA HinA), mult_sum. unfold blk. rewrite map_length, seq_length. exact El.
       * destruct (in_dec (list_eq_dec Nat.eq_dec) ls blk) as [Hi | Hn]; [apply (HB ls Hi)|].
         rewrite (count_in_zero ls blk Hn). lia.
-    + intros combo Hc. exists (combo, cw combo * wi). split; [|reflexivity].
+    + intros combo Hc. exists (combo, cw combo * wm). split; [|reflexivity].
       apply in_map_iff. exists combo. split; [reflexivity | apply HinA; exact Hc].
-  - intros [Hcnt _] ls Hls. specialize (Hcnt (ls, cw ls * wi)). cbn [fst snd] in Hcnt.
-    assert (Hm : In (ls, cw ls * wi) (map (fun ls0 => (ls0, cw ls0 * wi)) A)).
+  - intros [Hcnt _] ls Hls. specialize (Hcnt (ls, cw ls * wm)). cbn [fst snd] in Hcnt.
+    assert (Hm : In (ls, cw ls * wm) (map (fun ls0 => (ls0, cw ls0 * wm)) A)).
     { apply in_map_iff. exists ls. split; [reflexivity | apply HinA; exact Hls]. }
     specialize (Hcnt Hm). destruct (len =? csz); exact Hcnt.
 Qed.
@@ -355,7 +356,7 @@ Proof.
   pose proof T_split' as HTs. pose proof lo_lt as Hlo.
   unfold crossing_violated. rewrite Hrun, Hpre, Hcw, Hsz. cbn [of_opt rbind]. rewrite Hsu.
   replace (Z.of_nat si * Z.of_nat wi =? 0)%Z with false by (symmetry; apply Z.eqb_neq; nia).
-  rewrite Z.sub_0_r. replace (Z.of_nat wi * Z.of_nat 1)%Z with (Z.of_nat wi) by lia.
+  rewrite Z.sub_0_r. replace (Z.of_nat wi * Z.of_nat su)%Z with (Z.of_nat wm) by lia.
   replace (Z.of_nat si * Z.of_nat wi)%Z with (Z.of_nat csz) by lia.
   rewrite <- Nat2Z.inj_div, <- Nat2Z.inj_mod, Nat2Z.id.
   match goal with |- ?g R 0%Z 0%Z = _ => set (go := g) end.
@@ -366,7 +367,7 @@ Proof.
     - assert (k = R) by lia. subst k. cbn [go].
       destruct (0 <? Z.of_nat lo)%Z eqn:El.
       + apply Z.ltb_lt in El.
-        destruct (cmw_spec fb c r T L Hrows wi (R * csz) lo true ltac:(lia)) as (b & Hb & Hb0 & Hbz).
+        destruct (cmw_spec fb c r T L Hrows wm (R * csz) lo true ltac:(lia)) as (b & Hb & Hb0 & Hbz).
         change (b = 0%Z <-> Bok true (map Kt (seq (R * csz) lo))) in Hbz.
         replace (Z.to_nat (Z.of_nat (R * csz))) with (R * csz) by lia.
         replace (Z.to_nat (Z.of_nat (R * csz) + Z.of_nat lo)) with (R * csz + lo) by lia.
@@ -378,7 +379,7 @@ Proof.
     - cbn [go].
       assert (Hklt : k < R) by lia.
       assert (Hge : S k * csz <= R * csz) by (apply Nat.mul_le_mono_r; lia).
-      destruct (cmw_spec fb c r T L Hrows wi (k * csz) csz false ltac:(lia)) as (b & Hb & Hb0 & Hbz).
+      destruct (cmw_spec fb c r T L Hrows wm (k * csz) csz false ltac:(lia)) as (b & Hb & Hb0 & Hbz).
       change (b = 0%Z <-> Bok false (map Kt (seq (k * csz) csz))) in Hbz.
       replace (Z.to_nat (Z.of_nat (k * csz))) with (k * csz) by lia.
       replace (Z.to_nat (Z.of_nat (k * csz) + Z.of_nat csz)) with (k * csz + csz) by lia.
